@@ -9,6 +9,9 @@ PART = {}
 FUNCTIONS = ["miros.activeobject.ActiveObject.__post_event (capacity test, thread creation)", "post_event_thread_runner",
              "miros.activeobject.ActiveObject.post_fifo/post_lifo (timed form)"]
 ASSUMPTIONS = [
+  "E2 part: the caller runs the real post_fifo/post_lifo -> __post_event, translated whole from /repo's source on this run (capacity test, run flag, spec, "
+  "Thread(...), start, tracking record); a thread the translated code creates is compiled on the spot from its target (the real post_event_thread_runner "
+  "closure) and may run from the moment start() is called on it; the object's own thread (run_event) runs as well; the tracked list is full of running sources",
   "capacity of the tracked-source list (ActiveObject.QUEUE_SIZE, 500 in production) set to C = 1..3; the pending-event queue keeps capacity 8",
   "two schedules of the rejected source's thread: 'lazy' (it first runs after the caller returned) and 'eager' (it runs up to its first sleep as "
   "soon as it is started, before the caller continues); time.sleep is a virtual clock",
@@ -140,3 +143,57 @@ def set_tier(tier):
 
 def jobs(tier):
   return jobs_all(globals(), tier)
+
+
+# ---- E2 part: every interleaving of the caller with the thread of the rejected source -------------------------------------------------
+def e2_scenarios(tier):
+  out = []
+  for deferred in (False, True):
+    for kind in (("fifo",) if tier == "quick" else ("fifo", "lifo")):
+      out.append((dict(deferred=deferred, times=1, kind=kind, capacity=2, pending=0), 22))
+  if tier == "thorough":
+    out.append((dict(deferred=False, times=2, kind="fifo", capacity=1, pending=1), 30))
+  return out
+
+
+def e2_specs(tier):
+  out = []
+  for (kw, K) in e2_scenarios(tier):
+    out.append(dict(scenario="rejecting", kwargs=kw, kind="reach", K=K, pred="rejected", timeout=900))
+    out.append(dict(scenario="rejecting", kwargs=kw, kind="safety", K=K, pred="rejecting_bad", timeout=900, replay="rejecting_replay"))
+    out.append(dict(scenario="rejecting", kwargs=kw, kind="safety", K=K, pred="new_flag_left_up", timeout=900, replay="rejecting_replay"))
+    out.append(dict(scenario="rejecting", kwargs=kw, kind="deadlock", K=K, pred="caller_open", timeout=900, replay="rejecting_replay"))
+    out.append(dict(scenario="rejecting", kwargs=kw, kind="adequacy", K=K, timeout=900))
+  return out
+
+
+def e2_signature(spec, r):
+  real = r["replay"]["real"]
+  kw = spec["kwargs"]
+  tag = "deferred" if kw["deferred"] else "immediate"
+  if spec["kind"] == "deadlock":
+    return ("timed-post-blocked-for-ever", "schedule: %s" % (r["trace"],), not real["outcome"])
+  if real["outcome"].get("error"):
+    return ("other-exception", "%s; schedule: %s" % (real["outcome"], r["trace"]), True)
+  if real["outcome"].get("accepted"):
+    return ("no-exception", "the post was accepted although the object tracks its maximum (%d); schedule: %s" % (kw["capacity"], r["trace"]), True)
+  posted = real["rejected_event_in_queue"] + real["rejected_event_dispatched"]
+  if posted:
+    return ("rejected-source-posted:interleaving:" + tag, "the call raised, yet the rejected event was posted %d time(s) on the real object; schedule: %s" % (posted, r["trace"]), True)
+  if spec["pred"] == "new_flag_left_up":
+    return ("rejected-source-left-running", "the rejected source's run flag is still up after the call raised; schedule: %s" % (r["trace"],), any(real["new_flag_up"]))
+  return ("tracked-source-disturbed", "old flags up %s, %d tracked; schedule: %s" % (real["old_flags_up"], real["tracked"], r["trace"]),
+          not all(real["old_flags_up"]) or real["tracked"] != kw["capacity"])
+
+
+def solver_part(tier, known):
+  from vf.e2 import propbase, harness
+  FUNCTIONS.extend(x for x in propbase.functions_of("rejecting", e2_scenarios(tier)[0][0]) if x not in FUNCTIONS)
+  n = 6 if tier == "quick" else 20
+  out = propbase.run(e2_specs(tier), known, e2_signature, jobs=10,
+                     differential=lambda: harness.rejecting_differential(dict(deferred=False, pending=1), n, seed=31))
+  out["coverage"]["e2_bounds"] = [{"kwargs": k, "K": K} for k, K in e2_scenarios(tier)]
+  for q in out["coverage"]["bmc_queries"]:
+    if q["kind"] == "adequacy" and q["result"] == "sat":
+      out["inconclusive"].append("K=%s does not cover every behaviour of %s (adequacy query sat)" % (q["K"], q["kwargs"]))
+  return out
